@@ -523,6 +523,27 @@ func (u *Unit) applyContract(s *State, f *Frame, x ssa.Value, callee *ssa.Functi
 			}
 		}
 	}
+	// arguments that are addresses of fields (e.g. &v.maxHeap for a pointer-receiver method): the
+	// callee may write through them; the pointed-to field gets an arbitrary well-formed value,
+	// constrained afterwards by the callee's ensures over *param
+	if !c.Pure {
+		for _, a := range args {
+			if a.P == nil || a.T != nil || a.P.Kind != PCell || len(a.P.Path) == 0 {
+				continue
+			}
+			pt, ok := a.Ty.Underlying().(*types.Pointer)
+			if !ok {
+				continue
+			}
+			key, h := u.heap(s, "P", a.P.Elem)
+			nv := u.fresh(s, "deref", u.W.SortOf(pt.Elem()))
+			s.assume(u.wf(s, pt.Elem(), nv))
+			if in != nil {
+				u.frameCheck(s, key, a.P.Ref, nil, in)
+			}
+			u.setHeap(s, key, Store(h, a.P.Ref, u.updatePath(Select(h, a.P.Ref), a.P.Path, nv)))
+		}
+	}
 	// results
 	res := callee.Signature.Results()
 	var rvals []Value
